@@ -34,7 +34,7 @@ fn main() {
         }
     } else {
         // corpus first
-        let corpus = format!("{}/../../corpus/{}", out, prop);
+        let corpus = match std::env::var("VERIF_CORPUS") { Ok(c) => format!("{}/{}", c, prop), Err(_) => format!("{}/../../corpus/{}", out, prop) };
         if let Ok(rd) = std::fs::read_dir(&corpus) {
             let mut files: Vec<_> = rd.filter_map(|e| e.ok()).map(|e| e.path()).collect();
             files.sort();
